@@ -82,7 +82,8 @@ CHECKS = {
         "units": [
             unit("c16-stop", "gabikeys", ["zz_verif_c16_stop_test.go"], "^TestVerifC16Stop$", shards={"quick": 16, "thorough": 16},
                  instr=["safeprime/safeprime.go", "gabikeys/keys.go"]),
-            unit("c16-gen", "gabikeys", ["zz_verif_c16_gen_test.go", "zz_verif_c16_stop_test.go"], "^TestVerifC16(Filter|Generator|Lengths)$", shards={"quick": 12, "thorough": 16}),
+            unit("c16-gen", "gabikeys", ["zz_verif_c16_gen_test.go", "zz_verif_c16_stop_test.go"], "^TestVerifC16(Generator|Lengths)$", shards={"quick": 12, "thorough": 16}),
+            unit("c16-filter", "gabikeys", ["zz_verif_c16_filter_test.go", "zz_verif_c16_gen_test.go", "zz_verif_c16_stop_test.go"], "^TestVerifC16Filter$", shards={"quick": 12, "thorough": 16}),
         ],
         "assumptions": [],
     },
